@@ -231,13 +231,21 @@ func checkHistory(c core.Case, out []string) *core.Failure {
 		switch t[0] {
 		case "init":
 			nodes, arcs = map[int]bool{}, map[[2]int]bool{}
-		case "node":
+		case "node", "cnode", "mnode":
 			nodes[atoi(t[1])] = true
-		case "und":
+		case "mdel":
+			v := atoi(t[1])
+			delete(nodes, v)
+			for e := range arcs {
+				if e[0] == v || e[1] == v {
+					delete(arcs, e)
+				}
+			}
+		case "und", "cund":
 			a, b := atoi(t[1]), atoi(t[2])
 			nodes[a], nodes[b] = true, true
 			arcs[[2]int{a, b}], arcs[[2]int{b, a}] = true, true
-		case "arc":
+		case "arc", "carc", "marc":
 			a, b := atoi(t[1]), atoi(t[2])
 			nodes[a] = true
 			arcs[[2]int{a, b}] = true
